@@ -112,6 +112,8 @@ def run_job(args):
                     v = core.prove(o.hyps, o.goal, recheck=(tier == 'thorough'), rlimit=job.rlimit)
                     rec = dict(name=o.name, path=p.index, status=v.status, backend=v.backend, time=round(v.time, 4),
                                exact=v.exact, note=o.note, kind=o.kind, reason=v.reason)
+                    if v.status == 'refuted' and not v.exact:
+                        rec['analytic_free'] = core.is_analytic_free(list(o.hyps) + [o.goal])
                     if v.status in ('refuted', 'undecided'):
                         rec['goal'] = str(z3.simplify(o.goal))[:600]
                         rec['pc'] = [str(z3.simplify(x))[:200] for x in p.pc][:12]
@@ -203,6 +205,7 @@ def main(argv=None):
     ap.add_argument('--tier', default=os.environ.get('VERIF_TIER', 'quick'))
     ap.add_argument('--replay')
     ap.add_argument('--update-baseline', action='store_true')
+    ap.add_argument('--jobs-partial-ok', dest='jobs_partial_ok', action='store_true', help=argparse.SUPPRESS)
     ap.add_argument('--jobs', default=None, help='regex filter on job ids (debugging; evidence not written)')
     ap.add_argument('--procs', type=int, default=min(16, os.cpu_count() or 4))
     ap.add_argument('-v', action='store_true')
@@ -273,6 +276,8 @@ def report(prop, tier, seed, joblist, results, wall, a, mod):
     per_backend = {}
     violations = []; knowns = []; undecided = []; engine_errors = []
     proved_ids = set(); all_ids = {}
+    _bp = os.path.join(VERIF, 'baseline', f'{prop}.json')
+    base_proved = set(json.load(open(_bp)).get(tier, [])) if os.path.exists(_bp) else set()
     solver_time = 0.0
     functions = {}; shimset = set(); assumptions = set(getattr(mod, 'ASSUMPTIONS', []))
     samples = []
@@ -322,6 +327,12 @@ def report(prop, tier, seed, joblist, results, wall, a, mod):
                 elif o['exact'] and o['name'] != 'no_exception':
                     all_ids[oid] = 'refuted'
                     (knowns if k else violations).append((job, o, 'exact-no-input', k))
+                elif oid in base_proved and o.get('analytic_free') and o['name'] != 'no_exception' and not a.jobs_partial_ok:
+                    # discharged on the unchanged tree for ALL values of the functions the contract quantifies over, and now refuted by a
+                    # counter-model that only chooses such values (no uninterpreted analytic function involved): the contract is violated
+                    # as stated, although no native input reproduces it
+                    all_ids[oid] = 'refuted'
+                    (knowns if k else violations).append((job, o, 'baseline-obligation-refuted', k))
                 else:
                     all_ids[oid] = 'undecided'
                     undecided.append((job, o['name'], 'refuted only in the abstraction (uninterpreted function values or engine-level exception); no native failing input'))
